@@ -105,6 +105,7 @@ def generate(seed, prop, tier, index=0):
         ops.append(["enable", stall])
         model.on_enable()
         tm_us = stall
+        p_raise = rng.choice([0, 0, 0, 0.05, 0.15])
         for _ in range(rng.choice([3, 8, 15, 30, 50] if tier == "quick" else [3, 10, 30, 60, 100])):
             act = None
             r = rng.random()
@@ -112,6 +113,10 @@ def generate(seed, prop, tier, index=0):
                 act = ["next", rng.choice(names)]
             elif r < style["p_next"] + style["p_done"]:
                 act = ["done", None]
+            if p_raise and rng.random() < p_raise:
+                # fault: the state function raises after doing what it does; the caller (the selector with the FMS
+                # attached) swallows it and keeps iterating
+                act = (act or [None, None]) + [True]
             ops.append(["iter", act])
             try:
                 model.on_iteration(tm_us * 1e-6, act)
@@ -173,6 +178,10 @@ def build_source(cfg):
     return "\n".join(L) + "\n"
 
 
+class SimStateFault(Exception):
+    """raised by a generated state function on request of the plan"""
+
+
 class _H:
     def __init__(self, world):
         self.world = world
@@ -187,6 +196,8 @@ class _H:
                 inst.next_state(act[1])
             elif act[0] == "done":
                 inst.done()
+            if len(act) > 2 and act[2]:
+                raise SimStateFault(name)
 
     def take(self):
         ev, self.events = self.events, []
@@ -308,7 +319,10 @@ def execute(plan, trace=False):
                         model.on_iteration(tm, act)
                         mev = model.take()
                         H.act = list(act) if act else None
-                        inst.on_iteration(tm)
+                        try:
+                            inst.on_iteration(tm)
+                        except SimStateFault:
+                            faults["state_function_raises"] = faults.get("state_function_raises", 0) + 1
                         obs = {"tm": tm}
                 elif k == "disable":
                     if in_period:
